@@ -357,6 +357,8 @@ class Evaluator:
         if isinstance(base, Obj):
             if attr in base.fields:
                 return base.fields[attr]
+            if attr == "__dict__":
+                return base.fields      # the instance dictionary, live
             if base.ci is not None:
                 v = self.class_attr(base.ci, attr)
                 if isinstance(v, tuple) and v and v[0] == "function":
@@ -684,6 +686,14 @@ class Evaluator:
                 out.append(format(val, spec))
         return "".join(out)
 
+    def _e_Await(self, node, env):
+        # awaiting a stand-in: the rule's hook returned the awaited result
+        v = self.eval(node.value, env)
+        if isinstance(v, tuple) and v and isinstance(v[0], str) and v[0] in (
+                "function", "method", "pyfunc", "ext"):
+            raise Unknown("await of a function value")
+        return v
+
     def _e_NamedExpr(self, node, env):
         v = self.eval(node.value, env)
         if isinstance(node.target, ast.Name) and isinstance(env, dict):
@@ -785,6 +795,17 @@ class Evaluator:
 
     def call(self, f, args, kwargs=None):
         kwargs = kwargs or {}
+        if isinstance(f, ClassRef) and len(args) == 1 and not kwargs and \
+                f.ci.qualname not in self.ctor_hooks and self.is_enum(f.ci) \
+                and not any("Flag" in str(c) for c in self.repo.mro(f.ci)):
+            # Enum(value): the member with that value
+            v = args[0]
+            if isinstance(v, EnumVal) and v.cls is f.ci:
+                return v
+            for m in self.enum_members(f.ci).values():
+                if not isinstance(v, (Obj, Opaque)) and m.value == v:
+                    return m
+            raise Raised(f"ValueError: {v!r} is not a valid {f.ci.name}")
         if isinstance(f, ClassRef):
             if f.ci.qualname in self.ctor_hooks:
                 return self.ctor_hooks[f.ci.qualname](self, f.ci, args,
@@ -930,7 +951,7 @@ class Evaluator:
                 elif p in kwargs:
                     env[p] = kwargs.pop(p)
                 elif defaults[i] is not None:
-                    env[p] = sub.eval(defaults[i], {})
+                    env[p] = sub.eval(defaults[i], self._defenv(sub))
                 else:
                     raise Raised(f"TypeError: missing argument {p}")
             if a.vararg:
@@ -941,7 +962,7 @@ class Evaluator:
                 if p.arg in kwargs:
                     env[p.arg] = kwargs.pop(p.arg)
                 elif d is not None:
-                    env[p.arg] = sub.eval(d, {})
+                    env[p.arg] = sub.eval(d, self._defenv(sub))
             if a.kwarg:
                 env[a.kwarg.arg] = dict(kwargs)
                 kwargs = {}
@@ -953,6 +974,13 @@ class Evaluator:
             return r[1] if r is not None and r[0] == "return" else None
         finally:
             self._depth -= 1
+
+    @staticmethod
+    def _defenv(sub):
+        # default values of a method were evaluated in its class body
+        if sub.cls is not None and hasattr(sub.cls, "attrs"):
+            return _ClassBodyEnv(sub, sub.cls, None)
+        return {}
 
     def run_block(self, stmts, env):
         """returns None (fell through) or ("return", value)"""
@@ -997,7 +1025,7 @@ class Evaluator:
             return ("break",)
         if isinstance(s, ast.Continue):
             return ("continue",)
-        if isinstance(s, ast.For):
+        if isinstance(s, (ast.For, ast.AsyncFor)):
             it = self.eval(s.iter, env)
             if isinstance(it, (Obj, Opaque, ClassRef)) or (
                     isinstance(it, tuple) and it and isinstance(it[0], str)
